@@ -28,7 +28,7 @@ RMS = ['FORK', 'SLURM', 'PBSPRO_VNODE', 'PBSPRO_FILE', 'LSF', 'COBALT_FILE', 'CO
 
 DEVS = ['DevKeepDuplicates', 'DevKeepPseudo', 'DevSmtTwice', 'DevNoCut', 'DevAgentsStay',
         'DevBackupAfterCut', 'DevCopyDropsService', 'DevRegistryKeyCase', 'DevLsfTrustConfig',
-        'DevGpusAfterList', 'DevTimeoutIsOk', 'DevSplitByBackup']
+        'DevGpusAfterList', 'DevTimeoutIsOk', 'DevSplitByBackup', 'DevCcmByName']
 
 # the invariants of C18 (+ the model's own consistency), and the one that is not (D20)
 INVARIANTS = ['TypeOK', 'InvParsedOnePerNode', 'InvOnePerNode', 'InvSized', 'InvDisjoint',
@@ -38,10 +38,10 @@ INVARIANTS = ['TypeOK', 'InvParsedOnePerNode', 'InvOnePerNode', 'InvSized', 'Inv
 SMALL = dict(maxhosts=3, orders=['asc', 'rot'], cores=[2], smt=[1, 2], lsfcores=[2, 3], lsfsmt=[1, 4],
              pslots=[1, 3], probebackups=[0, 1, 2, 3],
              gpus=[(0, ()), (2, ()), (2, (1,))], bcs=[(), (0,)], backups=[0, 1], agents=[0, 1, 2])
-# the full cross product of the thorough tier leaves out 'GPUs present, none blocked' and the host
-# orders other than ascending (those are crossed with every allocation shape in the parse sweep; that
-# combination is crossed with every allocation shape in the parse sweep)
-FULL  = dict(SMALL, gpus=[(0, ()), (2, (1,))], orders=['asc'])
+# the full cross product of the thorough tier leaves out 'GPUs present, none blocked', the host
+# orders other than ascending and blocked cores (those are crossed with every allocation shape
+# in the parse sweep)
+FULL  = dict(SMALL, gpus=[(0, ()), (2, (1,))], orders=['asc'], bcs=[()])
 # deviation sensitivity runs
 TINY  = dict(SMALL, maxhosts=2, orders=['asc'])
 PROBE4 = dict(SMALL, maxhosts=4)
@@ -105,6 +105,8 @@ def classify(c, clause):
     if c['backup'] == 0 and clause in ('C18.Initialises', 'C18.OnePerNode', 'C18.NotShorter',
                                        'C17.AgentNodesAsTold') and c['requested'] < len(c['hosts']):
         return 'allocation larger than the pilot, no backup nodes'
+    if c['oldfiles'] != 'none':
+        return 'rm=CCM, node files of older jobs present (%s)' % c['oldfiles']
     if c['gpusrc'] != 'config':
         cls += ' gpus from $%s' % R.GPU_ENV[c['gpusrc']]
     return cls
@@ -124,7 +126,7 @@ def validate(chk, cases, traces, note):
         chk.nontrivial.add((c['rm'], c['shape'], c['pseudo'], c['pslots'], c['uneven'], c['gpusrc'],
                             c['style'], c['known'], c['smt'] > 1,
                             bool(c['bc']), bool(c['bg']), c['agents'], c['service'], c['backup'],
-                            len(c['refused']), len(c['hangs']),
+                            len(c['refused']), len(c['hangs']), c['oldfiles'],
                             c['requested'] < len(c['hosts']), kinds[-1]))
         mine = [e for e in errs if e.split('.')[0] == chk.pid]
         for e in errs:
@@ -165,9 +167,11 @@ def run(chk, tier, seed):
 
     # ---- 1. design model, exhaustive; the explored inputs drive the rig ---------
     cases = []
-    only17 = chk.pid == 'C17'       # C17.AgentNodesAsTold: the probe / backup sweep is enough
+    # C17 share (C17.AgentNodesAsTold): the probe / backup sweep and the correctly sized
+    # LSF jobs (every pseudo node kind, SMT 1 / 4), one TLC run
+    only17 = chk.pid == 'C17'
     if only17:
-        sweeps = [(SMALL if quick else PROBE4, 'probe')]
+        sweeps = [(SMALL if quick else PROBE4, 'c17')]
     elif quick:
         sweeps = [(SMALL, 'quick')]           # parse + filter + probe sweeps in one TLC run
     else:
@@ -206,7 +210,8 @@ def run(chk, tier, seed):
                   ('DevLsfTrustConfig', 'parse', 'InvParsedOnePerNode'),
                   ('DevGpusAfterList', 'parse', 'InvInfoAgrees'),
                   ('DevTimeoutIsOk', 'probe', 'InvReachable'),
-                  ('DevSplitByBackup', 'probe', 'InvNotShorter')]
+                  ('DevSplitByBackup', 'probe', 'InvNotShorter'),
+                  ('DevCcmByName', 'parse', 'InvParsedOnePerNode')]
         for dev, sweep, inv in expect:
             res = tlc.run('RMNodes', 'MC', 'MC.cfg', workers=w, timeout=900,
                           extra_files=mc_files(SMALL if sweep == 'probe' else TINY, sweep, devs=[dev],
